@@ -58,6 +58,8 @@ type tryFrame struct {
 
 	// the pending result (return value) of the abrupt completion that entered the 'finally' block
 	result Value
+	// the scope in which the jump (return, break, continue) that entered the 'finally' block was made
+	jumpStash *stash
 }
 
 type execCtx struct {
@@ -4856,6 +4858,7 @@ func (leaveTry) exec(vm *vm) {
 	if tf.finallyPos >= 0 {
 		tf.finallyRet = int32(vm.pc + 1)
 		tf.result = vm.result
+		tf.jumpStash = vm.stash
 		vm.pc = int(tf.finallyPos)
 		tf.finallyPos = -1
 		tf.catchPos = -1
@@ -4879,9 +4882,10 @@ type leaveFinally struct{}
 
 func (leaveFinally) exec(vm *vm) {
 	tf := &vm.tryStack[len(vm.tryStack)-1]
-	ex, ret, result := tf.exception, tf.finallyRet, tf.result
+	ex, ret, result, jumpStash := tf.exception, tf.finallyRet, tf.result, tf.jumpStash
 	tf.exception = nil
 	tf.result = nil
+	tf.jumpStash = nil
 	vm.popTryFrame()
 	if ex != nil {
 		vm.throw(ex)
@@ -4891,6 +4895,11 @@ func (leaveFinally) exec(vm *vm) {
 			// a cancelled 'return' inside the finally block must not replace the pending result
 			if result != nil {
 				vm.result = result
+			}
+			if ret >= 0 && jumpStash != nil {
+				// the rest of a 'return' sequence runs in the scope of the return statement (the return
+				// of a derived constructor reads 'this', which may live in a stash)
+				vm.stash = jumpStash
 			}
 			vm.pc = int(ret)
 		} else {
